@@ -270,8 +270,13 @@ def r1(ctx):
     ok = cs[:1] == ["BytesIO()"] and "self.serialize_header(stream)" in cs and "self.serialize(stream, **kwargs)" in cs and cs.index("self.serialize_header(stream)") < cs.index("self.serialize(stream, **kwargs)") and "stream.getvalue()" in cs
     ctx.check(ok, "C13.R1", db, "dumpb = header + body into a fresh buffer", witness=cs)
     lb = ctx.fn("%s:Serializable.loadb" % M)
-    rets = [norm(n.value) for n in walk_own(lb.node) if isinstance(n, ast.Return)]
-    ctx.check(rets == ["deserialize_value(stream, **kwargs)"], "C13.R1", lb, "loadb decodes one value from the stream", witness=rets)
+    # by value: on every path the result is deserialize_value(<the argument, or a BytesIO over it>, **kwargs)
+    from .common import sym_paths
+    sp = lb.params[0] if lb.params and lb.params[0] not in ("self", "cls") else lb.params[1]
+    paths = sym_paths(lb)
+    rets = sorted({r for (c, env, r) in paths}) if paths is not None else [norm(n.value) for n in walk_own(lb.node) if isinstance(n, ast.Return)]
+    srcs = (sp, "BytesIO(%s)" % sp, "BytesIO(%s) if isinstance(%s, bytes) else %s" % (sp, sp, sp))
+    ctx.check(bool(rets) and all(r in ["deserialize_value(%s, **kwargs)" % x for x in srcs] for r in rets), "C13.R1", lb, "loadb decodes one value from the stream", witness=rets)
 
 
 def _int_cells(ctx):
@@ -337,22 +342,30 @@ def r2(ctx):
     ctx.check(any(c[1] < qlo for c in overflow_cells) and any(c[0] > qhi for c in overflow_cells) and all(c[1] < qlo or c[0] > qhi for c in overflow_cells), "C13.R2", fi, "integers beyond 64 bits reach the widest format (struct.error)", witness=overflow_cells)
     # the conversion idiom in serialize_value
     sv = ctx.fn("%s:serialize_value" % M)
-    call = [c for c in walk_own(sv.node) if isinstance(c, ast.Call) and norm(c.func) == "serialize_types[t]"]
-    if ctx.require("C13.R2", sv, "writer dispatch serialize_types[t](stream, value)", len(call), 1):
+    call = _dispatch_calls(sv)
+    if ctx.require("C13.R2", sv, "writer dispatch serialize_types[type(value)](stream, value)", len(call), 1):
         trys = enclosing_trys(call[0])
         ok = False
+        scfg = cfg_of(sv)
         if trys:
             for h in trys[0].handlers:
                 if h.type is not None and norm(h.type) == "struct.error":
-                    asg = [s for s in h.body if isinstance(s, ast.Assign) and isinstance(s.value, ast.Call) and norm(s.value.func) == "ValueError"]
-                    if len(asg) == 1:
-                        ev = norm(asg[0].targets[0])
-                        from .capacity import _block_of
-                        blk = _block_of(trys[0])
-                        nxt = blk[blk.index(trys[0]) + 1] if blk.index(trys[0]) + 1 < len(blk) else None
-                        ok = isinstance(nxt, ast.If) and norm(nxt.test) == ev and len(nxt.body) == 1 and isinstance(nxt.body[0], ast.Raise) and norm(nxt.body[0].exc) == ev
                     rz = [s for s in h.body if isinstance(s, ast.Raise) and isinstance(s.exc, ast.Call) and norm(s.exc.func) == "ValueError"]
                     ok = ok or len(rz) == 1
+                    # ... or the error is parked in a local and raised after the try, exactly when it was set
+                    asg = [s for s in h.body if isinstance(s, ast.Assign) and isinstance(s.value, ast.Call) and norm(s.value.func) == "ValueError" and isinstance(s.targets[0], ast.Name)]
+                    if len(asg) == 1:
+                        ev = asg[0].targets[0].id
+                        an = scfg.node_of(asg[0])
+                        for r in scfg.stmts((ast.Raise,)):
+                            if r.ast.exc is not None and norm(r.ast.exc) == ev and r.id in scfg.reachable(an.id):
+                                conds = {(norm(t), p) for (t, p) in scfg.conditions_of(r.id)}
+                                if conds & {(ev, True), ("%s is not None" % ev, True), ("%s is None" % ev, False)}:
+                                    # nothing rebinds the local between the handler and the raise
+                                    from engine.defuse import defuse_of
+                                    defs = {d[0] for d in defuse_of(sv).reaching(ev, r.id)}
+                                    others = [d for d in defs if d != an.id and d != "ENTRY" and not (isinstance(scfg.nodes[d].ast, ast.Assign) and norm(scfg.nodes[d].ast.value) == "None")]
+                                    ok = ok or not others
         ctx.check(ok, "C13.R2", sv, "struct.error of a writer is converted to ValueError", "ints beyond 64 bits are refused with ValueError, never mis-encoded", line=call[0].lineno)
     # direct callers of serialize_int pass guarded lengths
     for (f, c) in package_calls(ctx.repo, "serialize_int"):
@@ -366,24 +379,54 @@ def r2(ctx):
     ctx.check(isinstance(mx, int) and mx <= INT_RANGE["q"][1], "C13.R2", fi, "MAX_BYTES_LENGTH fits a 64-bit length", witness=mx)
 
 
+def _dispatch_calls(sv):
+    """calls of serialize_value whose callee is serialize_types[<key>] with the key - read through temporaries - type(value)"""
+    from .common import sym_expr
+    scfg = cfg_of(sv)
+    out = []
+    for c in walk_own(sv.node):
+        if isinstance(c, ast.Call):
+            f = sym_expr(sv, c.func, scfg.node_of(c), allow_calls=("type",))
+            if isinstance(f, ast.Subscript) and norm(f.value) == "serialize_types" and norm(f.slice) == "type(%s)" % sv.params[1]:
+                out.append(c)
+    return out
+
+
 def r3(ctx):
     sv = ctx.fn("%s:serialize_value" % M)
-    tdef = [n for n in walk_own(sv.node) if isinstance(n, ast.Assign) and norm(n.targets[0]) == "t"]
-    ok = len(tdef) == 1 and norm(tdef[0].value) == "type(%s)" % sv.params[1]
-    first = [n for n in sv.node.body if isinstance(n, ast.If)]
-    ok = ok and bool(first) and norm(first[0].test) == "t in serialize_types"
-    ctx.check(ok, "C13.R3", sv, "dispatch on the exact type(value) (bool is not treated as int, subclasses are not silently accepted)", witness=[norm(t.value) for t in tdef])
-    # fall-through raises TypeError
-    node = first[0] if first else None
-    last = None
-    while node is not None and node.orelse:
-        if len(node.orelse) == 1 and isinstance(node.orelse[0], ast.If):
-            node = node.orelse[0]
-        else:
-            last = node.orelse
-            break
-    ok = last is not None and len(last) == 1 and isinstance(last[0], ast.Raise) and isinstance(last[0].exc, ast.Call) and norm(last[0].exc.func) == "TypeError"
-    ctx.check(ok, "C13.R3", sv, "unsupported types raise TypeError", witness=[norm(s) for s in (last or [])])
+    from .common import sym_text, leaf_cut, reach_without
+    scfg = cfg_of(sv)
+    vp = sv.params[1]
+    call = _dispatch_calls(sv)
+    # the key of the lookup and of the membership test that guards it is type(value), read through temporaries
+    ok = len(call) == 1
+    member = []
+    if ok:
+        for (t, p) in scfg.conditions_of(scfg.node_of(call[0]).id):
+            if isinstance(t, ast.Compare) and len(t.ops) == 1 and isinstance(t.ops[0], (ast.In, ast.NotIn)) and norm(t.comparators[0]) == "serialize_types":
+                key = sym_text(sv, t.left, scfg.node_of(t), allow_calls=("type",))
+                if key == "type(%s)" % vp and p == isinstance(t.ops[0], ast.In):
+                    member.append(t)
+        ok = len(member) == 1
+    ctx.check(ok, "C13.R3", sv, "dispatch on the exact type(value) (bool is not treated as int, subclasses are not silently accepted)",
+              witness=[norm(c.func) for c in call])
+    # fall-through raises TypeError: with the edges of `type in table` and of every isinstance(value, ...) test that accept the value
+    # removed, no normal exit is reachable and the TypeError is
+    def accept(text):
+        if text.endswith(" in serialize_types") and " not in " not in text:
+            return "T"
+        if text.endswith(" not in serialize_types"):
+            return "F"
+        if text.startswith("isinstance(%s, " % vp):
+            return "T"
+        return None
+    cut = leaf_cut(scfg, accept)
+    reach = reach_without(scfg, scfg.entry, cut)
+    exits = [n for n in scfg.stmts((ast.Return,)) if n.id in reach]
+    te = [n for n in scfg.stmts((ast.Raise,)) if n.id in reach and isinstance(n.ast.exc, ast.Call) and norm(n.ast.exc.func) == "TypeError"]
+    ok = bool(cut) and not exits and scfg.exit not in reach and len(te) >= 1
+    ctx.check(ok, "C13.R3", sv, "unsupported types raise TypeError", witness={"accepting_tests": sorted(norm(scfg.nodes[k].ast) for k in cut), "returns_reached": [norm(n.ast) for n in exits],
+                                                                              "falls_off_the_end": scfg.exit in reach})
     # length guards: writer constant == reader constant
     pairs = (("serialize_string", "deserialize_string", "MAX_BYTES_LENGTH"), ("serialize_bytes", "deserialize_bytes", "MAX_BYTES_LENGTH"),
              ("serialize_map", "deserialize_map", "MAX_ARRAY_LENGTH"), ("serialize_seq", "deserialize_seq", "MAX_ARRAY_LENGTH"), ("serialize_set", "deserialize_set", "MAX_ARRAY_LENGTH"))
